@@ -335,6 +335,57 @@ impl<'tcx> Dumper<'tcx> {
                 }
                 ConstValue::Indirect { alloc_id, offset } => {
                     o = o.b("indirect", true);
+                    // arrays of string slices (`const NAMES: [&str; N]`): the texts, element by element
+                    if let ty::Array(et, n) = ty.kind() {
+                        let is_str_ref = matches!(et.kind(), ty::Ref(_, inner, _) if inner.is_str());
+                        if is_str_ref {
+                            if let (Some(n), Some(mir::interpret::GlobalAlloc::Memory(alloc))) =
+                                (n.try_to_target_usize(tcx), tcx.try_get_global_alloc(alloc_id))
+                            {
+                                let a = alloc.inner();
+                                let base = offset.bytes() as usize;
+                                let mut strs: Vec<String> = Vec::new();
+                                let mut complete = true;
+                                for i in 0..(n as usize) {
+                                    let at = base + i * 16;
+                                    if at + 16 > a.len() {
+                                        complete = false;
+                                        break;
+                                    }
+                                    let raw = a.inspect_with_uninit_and_ptr_outside_interpreter(at..at + 16);
+                                    let mut pb = [0u8; 8];
+                                    pb.copy_from_slice(&raw[0..8]);
+                                    let mut lb = [0u8; 8];
+                                    lb.copy_from_slice(&raw[8..16]);
+                                    let poff = u64::from_le_bytes(pb) as usize;
+                                    let len = u64::from_le_bytes(lb) as usize;
+                                    let prov = a.provenance().ptrs().get(&rustc_abi::Size::from_bytes(at as u64));
+                                    let mut got = None;
+                                    if let Some(p) = prov {
+                                        if let Some(mir::interpret::GlobalAlloc::Memory(ta)) = tcx.try_get_global_alloc(p.alloc_id()) {
+                                            let t = ta.inner();
+                                            if poff + len <= t.len() {
+                                                let b = t.inspect_with_uninit_and_ptr_outside_interpreter(poff..poff + len);
+                                                if let Ok(st) = std::str::from_utf8(b) {
+                                                    got = Some(st.to_string());
+                                                }
+                                            }
+                                        }
+                                    }
+                                    match got {
+                                        Some(st) => strs.push(jstr(&st)),
+                                        None => {
+                                            complete = false;
+                                            break;
+                                        }
+                                    }
+                                }
+                                if complete {
+                                    o = o.raw("strs", &arr(strs));
+                                }
+                            }
+                        }
+                    }
                     // small memory-backed constants: raw bytes plus field offsets of struct ADTs
                     if let Ok(layout) = tcx.layout_of(tenv.as_query_input(ty)) {
                         let size = layout.size.bytes() as usize;
